@@ -51,7 +51,14 @@ func (fc *FuncCtx) readLoc(st *State, l *Loc) *Term {
 
 func (fc *FuncCtx) writeLoc(st *State, l *Loc, v *Term) {
 	if !l.Sort.Eq(v.Sort) {
-		panic(engineError{fmt.Sprintf("writeLoc sort mismatch at %s: loc %s val %s", l.id(), l.Sort, v.Sort)})
+		if (l.Kind == "field" || l.Kind == "elem") && (strings.Contains(l.Sort.String(), "V") || strings.Contains(v.Sort.String(), "V")) {
+			// a field of a generic struct whose declared type mentions a type parameter (sort V) receives a value of
+			// the instantiated type: the stored value is abstracted to an unknown (reads see an arbitrary value)
+			fc.note("field of a generic struct written with an instantiated value: contents abstracted (" + l.Key + ")")
+			v = fc.freshConst("genfield", l.Sort)
+		} else {
+			panic(engineError{fmt.Sprintf("writeLoc sort mismatch at %s: loc %s val %s", l.id(), l.Sort, v.Sort)})
+		}
 	}
 	switch l.Kind {
 	case "local":
@@ -61,6 +68,10 @@ func (fc *FuncCtx) writeLoc(st *State, l *Loc, v *Term) {
 		st.heap[l.Key] = fc.nameTerm(st, l.Key, Store(arr, l.Base, v))
 	case "elem":
 		p := fc.readLoc(st, l.Parent)
+		if p.Sort.Kind == "Slice" && !p.Sort.Elem.Eq(v.Sort) && strings.Contains(p.Sort.String(), "V") {
+			fc.note("element of a generic container written with an instantiated value: contents abstracted")
+			v = fc.freshConst("genelem", p.Sort.Elem)
+		}
 		np := MkSlice(Store(SliceArr(p), l.Index, v), SliceLen(p))
 		fc.writeLoc(st, l.Parent, fc.nameTerm(st, "sl", np))
 	case "mapelem":
